@@ -382,7 +382,7 @@ func (E *Engine) verifyFunc(key string) *FuncResult {
 			E.mu.Unlock()
 		}
 	}()
-	x := &Exec{E: E, fn: fn, key: key, ct: ct, maxPaths: 6000, usedTrusted: map[string]bool{}, usedModels: map[string]bool{}, inlined: map[string]bool{}}
+	x := &Exec{E: E, fn: fn, key: key, ct: ct, maxPaths: 6000, usedTrusted: map[string]bool{}, usedModels: map[string]bool{}, inlined: map[string]bool{}, okEval: map[string]int{}}
 	if err := x.verify(); err != nil {
 		fr.Err = err
 		return fr
